@@ -174,7 +174,11 @@ def display_prims(token_fmt_opaque=True):
                 fa = av.elems[p[1]]
                 if not (isinstance(fa, Adt) and fa.adt == FMTARG):
                     raise Abort('format argument %r' % (fa,))
-                out(st, ('arg', spec(fa.fields[0].b.decode(), p[2], p[3], p[4]), describe(m, st, fa.fields[1])))
+                rawv = fa.fields[1]
+                for _ in range(4):
+                    if isinstance(rawv, Ref):
+                        rawv = m.read_path(st, rawv.key, rawv.path)
+                out(st, ('arg', spec(fa.fields[0].b.decode(), p[2], p[3], p[4]), describe(m, st, fa.fields[1]), rawv))
         return ok(UNIT)
 
     def token_fmt(m, cfg, f, args, t):
@@ -526,6 +530,71 @@ TOKEN_REF = {
 # tokens that the Tokenizer display intercepts (never rendered through Token::fmt inside display()); their own format is the
 # token-level notation documented on `impl Display for Token`
 TOKEN_STANDALONE = {'Array': 'A[{}]', 'Map': 'M[{}]', 'Tag': 'T({})', 'Break': ']', 'BeginBytes': '?B[', 'BeginString': '?S[', 'BeginArray': '?A[', 'BeginMap': '?M['}
+
+
+def int_display(ctx, prog):
+    """Display for Int (what `Token::Int` and the diagnostic notation print): the decimal of the mathematical value, for the
+    whole 65-bit range"""
+    ctx.rules_run.append('INT-FMT: Display for Int, interpreted for both signs with a symbolic magnitude over the whole u64 range: one "{}" of the value -1 - n (or "-" followed by n + 1 computed without wrapping or saturating) for negative, of n for non-negative integers')
+    path = '<minicbor::data::Int as std::fmt::Display>::fmt'
+    inst = prog.one(path)
+    if inst is None:
+        ctx.fail_closed('INT-FMT', 'anchor missing: %s' % path)
+        return
+    where = mir.loc(inst['sp'])
+    ad = prog.adts.get('minicbor::data::Int')
+    fields = ad['variants'][0]['fields'] if ad else []
+    if sorted(fields) != ['neg', 'val']:
+        ctx.fail_closed('INT-FMT', 'Int is no longer (neg, val): %s' % fields)
+        return
+    ov = display_prims(token_fmt_opaque=False)
+    raw = {}
+    o_write = ov["std::fmt::Formatter::<'_>::write_fmt"]
+    n = 0
+    for neg in (0, 1):
+        m = Machine(prog, prims=prims.P, overrides=ov, max_configs=500, max_steps=50000)
+        st = State()
+        v = m.new_sym(st, 'n', 'u64', ((0, (1 << 64) - 1),))
+        fs = [None, None]
+        fs[fields.index('neg')] = Int.const(neg)
+        fs[fields.index('val')] = Int.sym(v)
+        st.mem[('obj', 'int')] = Adt('minicbor::data::Int', 0, fs)
+        st.mem[('obj', 'f')] = Atom('formatter')
+        try:
+            outs = m.run(inst, [Ref(('obj', 'int'), ()), Ref(('obj', 'f'), (), True)], st)
+        except Abort as e:
+            ctx.fail_closed('INT-FMT', 'Display for Int cannot be interpreted: %s' % e)
+            return
+        for o in outs:
+            key = 'neg=%d|%s' % (neg, l1.fmt_cell(o.st, ('n',)))
+            n += 1
+            if o.kind != 'return' or l1.result_kind(o.value) != 'Ok':
+                if any(e[0] == 'OUT' for e in o.st.events) or o.kind != 'return':
+                    ctx.violation('INT-FMT', key + '|path', 'a path ends as %s after writing %s' % (o.kind, [e[1][:3] for e in o.st.events if e[0] == 'OUT']), where)
+                continue
+            pieces = [e[1] for e in o.st.events if e[0] == 'OUT']
+            txt = ''.join(p[1] for p in pieces)
+            args_ = [p for p in pieces if p[0] == 'arg']
+            bad = [f for f in o.st.flags if f.startswith(('imprecise', 'opaque', 'trunc')) and not f.startswith('imprecise:branch')]
+            lo, hi = o.st.ranges['n'][0][0], o.st.ranges['n'][-1][1]
+            want = None
+            if len(args_) == 1 and len(args_[0]) > 3 and isinstance(args_[0][3], Int) and not bad:
+                got = args_[0][3]
+                if txt == '{}':
+                    want = Int.sym('n') if not neg else Int((('n', -1),), -1)
+                elif txt == '-{}' and neg:
+                    want = Int((('n', 1),), 1)
+                if want is not None and got != want and lo == hi and got.is_const():
+                    # a single value: compare numerically
+                    wv = want.c + sum(k * lo for s_, k in want.terms)
+                    if got.c == wv:
+                        got = want
+                if want is not None and got == want:
+                    ctx.ok('INT-FMT', key)
+                    continue
+            ctx.violation('INT-FMT', 'neg=%d' % neg, 'Int { neg: %s, val: n } with n in [%#x, %#x] is printed as %r with argument %s%s; the value is %s' % (
+                bool(neg), lo, hi, txt, [p[2] for p in args_], (' (' + ','.join(sorted(bad)) + ')') if bad else '', '-1 - n' if neg else 'n'), where)
+    ctx.floor('INT-FMT', 'paths', n, 2)
 
 
 def token_display(ctx, prog):
@@ -1002,6 +1071,7 @@ def run(ctx):
     depth, sizes = (2, (0, 1, 2, 3)) if ctx.tier == 'quick' else (3, (0, 1, 2, 3, 4))
     notation(ctx, prog, depth, sizes)
     s1 = token_display(ctx, prog) or {}
+    int_display(ctx, prog)
     s2 = progress(ctx, prog)
     for k, v in s2.items():
         r = s1.setdefault(k, {'ok': 0, 'open': 0, 'fail': 0})
